@@ -216,7 +216,13 @@ static void enumerate(int tier, const std::function<bool(const Case&)>& emit)
             {
                 uint16_t w = wire::get16(full.data() + off);
                 size_t restAfter = full.size() - off - 2;
-                for (int val : {0, 1, w - 1, w + 1, 0x7FFF, 0x8000, 0xFFFF, 0xFFFE, static_cast<int>(restAfter), static_cast<int>(restAfter) + 1, static_cast<int>(restAfter) - 1})
+                std::vector<int> vals = {0, 1, w - 1, w + 1, 0x7FFF, 0x8000, 0xFFFF, 0xFFFE, static_cast<int>(restAfter), static_cast<int>(restAfter) + 1, static_cast<int>(restAfter) - 1};
+                // the top of the 16-bit range (sums with small constants wrap there) and multiples of the entry sizes
+                for (int v = 0xFFE0; v <= 0xFFFF; ++v)
+                    vals.push_back(v);
+                for (int v = 2; v <= 16; ++v)
+                    vals.push_back(v);
+                for (int val : vals)
                 {
                     if ((val & 0xFFFF) == w || val < 0)
                         continue;
@@ -300,7 +306,9 @@ static rc::Gen<Case> genCase(int tier)
                 if (b.tecmp.kind <= 1)
                     b.tecmp.data = *bytesOfLen(*range<size_t>(0, 64));
                 if (b.tecmp.kind == 3)
-                    b.tecmp.entries = *range<uint16_t>(0, 12);
+                    b.tecmp.entries = *rc::gen::weightedOneOf<uint16_t>({{3, range<uint16_t>(0, 12)}, {1, range<uint16_t>(13, 60)}});
+                if (b.tecmp.kind >= 2 && *range<int>(0, 2) == 0)
+                    b.tecmp.vendorLen = *rc::gen::weightedOneOf<int32_t>({{2, range<int32_t>(0, 40)}, {3, range<int32_t>(0xFFE0, 0xFFFF)}, {1, range<int32_t>(0, 0xFFFF)}});
             }
             Bytes full = b.build();
             int nPokes = *rc::gen::weightedElement<int>({{2, 0}, {4, 1}, {2, 2}, {1, 3}});
